@@ -482,7 +482,9 @@ func runC03(r *Run, verifDir string) {
 					}
 				}
 			})
-			if nEmit > 1 {
+			if nEmit == 2 && int64FastPath(fn) {
+				r.OK("C03.T3", key+"/single-emission", fn.Pos(), "two emissions: the general one fed by bigIntToBytes and a fast path taken under value.IsInt64() that writes the 8 bytes of uint64(value.Int64()) — the two's complement of a value that fits 64 signed bits, sign included")
+			} else if nEmit > 1 {
 				r.Bad("C03.T3", key+"/single-emission", fn.Pos(), "BigInteger emits the item in %d places: only the route through bigIntToBytes(value, 8) writes the two's complement with its sign word; a value taking another route (e.g. a fast path for values that fit 64 bits: 2^63 <= v < 2^64 then has its top bit set and reads back negative) is not what was handed to the encoder", nEmit)
 			} else {
 				r.OK("C03.T3", key+"/single-emission", fn.Pos(), "one emission, fed by bigIntToBytes")
@@ -1327,4 +1329,81 @@ func condPos(iff *ssa.If, fn *ssa.Function) token.Pos {
 		}
 	}
 	return fn.Pos()
+}
+
+// int64FastPath: the extra emission of ttlvWriter.BigInteger is `if value.IsInt64() { encodeAppend(tag,
+// TypeBigInteger, 8, func(b) { AppendUint64(b, uint64(value.Int64())) }) }`: declared length 8, the eight bytes are the
+// conversion of Int64() itself, and the emission is dominated by the true edge of IsInt64() on the same value.
+func int64FastPath(fn *ssa.Function) bool {
+	ok := false
+	allInstrs(fn, func(in ssa.Instruction) {
+		call, isCall := in.(*ssa.Call)
+		if !isCall || !callID(&call.Call).is(ttlvPath, "ttlvWriter", "encodeAppend") || len(call.Call.Args) < 5 {
+			return
+		}
+		if l, isK := constIntVal(call.Call.Args[3]); !isK || l != 8 {
+			return
+		}
+		guarded := false
+		for _, dc := range dominatingConds(call.Block()) {
+			if c, isC := dc.cond.(*ssa.Call); isC && dc.outcome && callID(&c.Call).is("math/big", "Int", "IsInt64") && c.Call.Args[0] == ssa.Value(fn.Params[2]) {
+				guarded = true
+			}
+		}
+		mc, isMC := call.Call.Args[4].(*ssa.MakeClosure)
+		if !guarded || !isMC {
+			return
+		}
+		cl := mc.Fn.(*ssa.Function)
+		writes := 0
+		good := false
+		allInstrs(cl, func(i2 ssa.Instruction) {
+			c2, isC := i2.(*ssa.Call)
+			if !isC {
+				return
+			}
+			id := callID(&c2.Call)
+			if isBuiltinCall(&c2.Call) || id.pkg == "encoding/binary" {
+				writes++
+			}
+			if id.pkg == "encoding/binary" && id.name == "AppendUint64" {
+				v := c2.Call.Args[len(c2.Call.Args)-1]
+				if cv, isCv := v.(*ssa.Convert); isCv {
+					v = cv.X
+				}
+				v = unspill(v)
+				// the captured Int64() result, or the call itself on the captured value
+				src := v
+				if fv, isFV := v.(*ssa.FreeVar); isFV {
+					for i, f2 := range cl.FreeVars {
+						if f2 == fv {
+							src = mc.Bindings[i]
+						}
+					}
+				}
+				if ld, isLd := src.(*ssa.UnOp); isLd && ld.Op == token.MUL {
+					if fv, isFV := ld.X.(*ssa.FreeVar); isFV {
+						for i, f2 := range cl.FreeVars {
+							if f2 == fv {
+								if al, isAl := mc.Bindings[i].(*ssa.Alloc); isAl {
+									for _, ref := range *al.Referrers() {
+										if st, isSt := ref.(*ssa.Store); isSt && st.Addr == ssa.Value(al) {
+											src = st.Val
+										}
+									}
+								}
+							}
+						}
+					}
+				}
+				if c3, isC3 := src.(*ssa.Call); isC3 && callID(&c3.Call).is("math/big", "Int", "Int64") {
+					good = true
+				}
+			}
+		})
+		if good && writes == 1 {
+			ok = true
+		}
+	})
+	return ok
 }
